@@ -132,6 +132,8 @@ func c17Join(c *core.Ctx) {
 		"negated atom":     func() ordabs.Value { return k.neg("q") },
 		"equality":         func() ordabs.Value { return k.zero("ast", "Eq") },
 		"temporal literal": func() ordabs.Value { return k.tl(k.atom("q", 1), false, true) },
+		"built-in atom":    func() ordabs.Value { return k.atom(":list:member", 2) },
+		"comparison":       func() ordabs.Value { return k.atom(":lt", 2) },
 	}
 	if !k.ok {
 		c.Unres(rC17Join, f.Name, f.Decl.Pos(), "anchor-unresolved: engine types")
@@ -304,6 +306,7 @@ func c17Count(c *core.Ctx) {
 		}
 	}
 	c.Check(bad == "", rC17Count, f.Name, f.Decl.Pos(), "plain + temporal store counts", bad)
+	teeTemporalCount(c, rC17Count)
 }
 
 // c17Errors: error propagation over the evaluation call tree. The functions are
